@@ -17,6 +17,9 @@ func init() { core.Register(c14{}) }
 
 func (c14) ID() string { return "C14" }
 
+// EvalFeatures names the counters of judged executions.
+func (c14) EvalFeatures() []string { return []string{"pairs", "dialogue-prefixes-compared"} }
+
 func (c14) Cases(tier string) int {
 	if tier == "thorough" {
 		return 60000
